@@ -1057,6 +1057,22 @@ pub fn c07(tier: &str) -> Vec<Family> {
         cmds.push(StepUntil(When::Abs(3)));
         sc2.push(scn(format!("model_origin#{}", k), &spec, cmds));
     }
+    // A periodic series of a model, and one-shot events that the tick handler (or another handler
+    // of the same step) schedules for exactly the time of the next occurrence: the next occurrence
+    // was scheduled first (when its predecessor fired) and runs first.
+    for p in [1u64, 2] {
+        let tick = NodeSpec::new("P", 4)
+            .script(7, vec![sched_self(SKind::Periodic(p), When::Rel(p), 1, 0)])
+            .script(1, vec![sched_self(SKind::Once, When::Rel(p), 2, 0), sched_self(SKind::Keyed, When::Rel(p), 2, 1)])
+            .script(2, vec![Op::ReadTime])
+            .script(8, vec![sched_self(SKind::KeyedPeriodic(p), When::Rel(p), 3, 2)])
+            .script(3, vec![sched_self(SKind::Once, When::Rel(p), 2, 0)]);
+        let tspec = Arc::new(BenchSpec::new(vec![tick]));
+        for (name, tag) in [("periodic", 7u16), ("keyed_periodic", 8)] {
+            sc2.push(scn(format!("tick_schedules_shot/{}/p{}", name, p), &tspec, vec![pe(0, tag, 1), StepUntil(When::Abs(3 * p as i64 + 1))]));
+            sc2.push(scn(format!("tick_schedules_shot/{}/p{}/steps", name, p), &tspec, vec![pe(0, tag, 1), Step, Step, Step]));
+        }
+    }
     fams.push(Family::new("model_origin", &["same_origin_order"], sc2).cap(cap));
     // Batches larger than the mailbox: the compound future has to wait.
     let mut sc3 = vec![];
